@@ -16,7 +16,8 @@ SPEC = dict(
          "explicit add-queue drains, monitor ticks (Maintain + recent-set length), resizes (kept, dropped, worker count) and "
          "fake-clock advances (mostly landing on / 1 ns around a recent-drop expiry) on a real cuckooSentCache with kept "
          "capacity 1-8 (thorough: up to 64), filters of 4-64 slots, an id universe a few ids larger than the kept capacity, "
-         "8 % of cases flooding the 1000-deep add queue; every case ends with a drain and a lookup of every id. "
+         "trace-id strings of 16/32/33/36/48/64/100 bytes in families of 2-4 ids sharing an 8/16/32-byte prefix (lookups and records "
+         "biased towards siblings), 8 % of cases flooding the 1000-deep add queue; every case ends with a drain and a lookup of every id. "
          "non-trivial = has a kept record, a drop record, a drain or maintenance, and got both a 'kept' and a 'dropped' answer; "
          "distinct by transcript hash",
     trusted_base=[
@@ -25,6 +26,9 @@ SPEC = dict(
         "fingerprints enter the model as adversarial inputs computed from the real filters' Lookup/Count after each drain; "
         "assumed: an insert cannot fail while the filter holds fewer than 4 fingerprints, one failed insert loses at most one id)",
         "dgryski/go-wyhash (reason hash fed to the model per record)",
+        "reference for false positives: single-element library filters keyed on the full id (one per dropped id and capacity), "
+        "asked by the harness; the filter truth (chk/cur/fut) is read by the harness with full ids on the cache's filter objects, "
+        "never through the cache's own Check",
         "clockwork.FakeClock on the recent-drop set; generics.SetWithTTL as modelled for C32",
         "harness accessors zz_verif_sentcache.go (parks the 100 us add-queue goroutine; SizeCheckInterval = 1000 h)",
     ],
